@@ -60,7 +60,13 @@ class Standardiser(PoolDecorator):
         supply = self.target.supply
         by_supply = _clamp(supply - self.backlog, value, supply + self.surplus)
         by_limits = _clamp(self.minimum, by_supply, self.maximum)
-        return type(value)(by_limits)
+        # keep the type of `value` (e.g. int) only if that does not change the result:
+        # an integer demand clamped to a fractional limit must not be truncated past it
+        try:
+            typed = type(value)(by_limits)
+        except (OverflowError, ValueError):
+            return by_limits
+        return typed if typed == by_limits else by_limits
 
     def __init__(
         self,
